@@ -2549,7 +2549,7 @@ fn main() {
     }
     deaths.retain(|d| d.task.sp != SpaceId::SelfTest);
 
-    let menu = "for primitive string-typed nodes (OCTET/BIT STRING, character strings, times, primitive context tags) the 24 BER constructed-string spellings (2 parts cut after the first / in the middle / before the last octet; last part twice; last octet dropped; extra part of 1/4/64 octets; empty part; nested depth 2; wrong inner tag; single part; each with definite and indefinite outer length); tag := each of 16 tags; length := {-1, +1, 0, indefinite with/without end-of-contents, non-minimal long form, 84 FFFFFFFF}; content := {one octet short, empty, one zero octet, all FF, first/last octet +-1}; delete; duplicate; swap with next sibling; splice in the first node of every other tag of the same object; wrap in 64 (thorough, seeds <= 4 KiB: also 20000 indefinite / 3000 definite) levels of constructed nesting";
+    let menu = "size classes: at every string, INTEGER, SEQUENCE, SET and context-tagged node the content is brought to each of 127, 128, 255, 256, 65535, 65536, 65537 octets (primitive: zero padding or cut; constructed: appended unknown-attribute filler, repeated last element, padded last leaf), ancestors fixed up; for primitive string-typed nodes (OCTET/BIT STRING, character strings, times, primitive context tags) the 24 BER constructed-string spellings (2 parts cut after the first / in the middle / before the last octet; last part twice; last octet dropped; extra part of 1/4/64 octets; empty part; nested depth 2; wrong inner tag; single part; each with definite and indefinite outer length); tag := each of 16 tags; length := {-1, +1, 0, indefinite with/without end-of-contents, non-minimal long form, 84 FFFFFFFF}; content := {one octet short, empty, one zero octet, all FF, first/last octet +-1}; delete; duplicate; swap with next sibling; splice in the first node of every other tag of the same object; wrap in 64 (thorough, seeds <= 4 KiB: also 20000 indefinite / 3000 definite) levels of constructed nesting";
     let sp0 = finish_space(SpaceId::B0, "bound0.seeds",
         "every seed (files of a decodable type under test-data, base64 payloads of serde-compat/*.json, freshly built objects of every type) into each entry point of its type, strict and relaxed; full accessor sweep after every successful decode; non-trivial = (seed, entry point) pairs that decode",
         true, "all seeds", None);
